@@ -865,3 +865,71 @@ func withInlinedHelpers(fn *ssa.Function, depth int) []*ssa.Function {
 	walk(fn, depth)
 	return out
 }
+
+// ruleAllocIndexBounded (ALLOC.INDEX-IN-POOL): every index handed to a
+// mutating bitmap operation (Set grows the bitset to index+1 bits: an
+// attacker-chosen index is an allocation of attacker-chosen size, i.e. a
+// makeslice panic or memory exhaustion) is bounded by the pool: it is the
+// result of NextClear on this bitmap, or the address→index conversion of an
+// address the path has shown to lie inside the pool (Contains(<that same
+// address>) for the IPv6 allocator; the IPv4 conversion's own range test,
+// whose failure yields 0 - LINMAP/ERR-ZERO).
+func ruleAllocIndexBounded(c *Ctx, rule string) {
+	n := 0
+	for _, ai := range findAllocImpls(c) {
+		for _, m := range ai.Methods {
+			ex := NewExplorer(c.P, c.Pure, m)
+			type res struct {
+				n   int
+				bad string
+			}
+			sites := map[ssa.Instruction]*res{}
+			ex.Hooks.Instr = func(st *State, in ssa.Instruction) {
+				op, call := ai.bitmapOp(ex, st, in)
+				if op != "Set" {
+					return
+				}
+				r := sites[in]
+				if r == nil {
+					r = &res{}
+					sites[in] = r
+				}
+				r.n++
+				ic := ex.Canon(st, call.Call.Args[1]).S
+				switch {
+				case regexp.MustCompile(`^\(\*` + reQ(pkgBitset) + `\.BitSet\)\.NextClear(@(?:[\w$]+·)?t\d+)?\(\$0\.` + ai.Bitmap + `,[^)]*\)#0$`).MatchString(ic):
+				case regexp.MustCompile(`^\(\*[^()]*\)\.toOffset(@(?:[\w$]+·)?t\d+)?\(\$0,.*\)#0$`).MatchString(ic):
+				default:
+					m := regexp.MustCompile(`^(\(\*[^()]*\)\.toIndex(@(?:[\w$]+·)?t\d+)?\(\$0,(.*)\))#0$`).FindStringSubmatch(ic)
+					if m == nil {
+						r.bad = "Set(" + shortName(ic) + "): the index is neither NextClear's result nor the pool's address→index conversion"
+						return
+					}
+					cont, _ := histFact(st, "bool", regexp.MustCompile(`^\(\*net\.IPNet\)\.Contains\(&\$0\.[A-Za-z_]+,`+reQ(m[3])+`\)$`))
+					if cont != 1 {
+						r.bad = fmt.Sprintf("Set(toIndex(%s)): the index is an absolute distance from the pool base, and the path has not shown that this very address lies inside the pool (Contains(%s)=%s): an address outside the pool yields an index of up to 2^64, which the bitset tries to grow to", shortName(m[3]), shortName(m[3]), tri(cont))
+					}
+				}
+			}
+			ex.Run()
+			k := 0
+			for _, b := range m.Blocks {
+				for _, in := range b.Instrs {
+					r, ok := sites[in]
+					if !ok {
+						continue
+					}
+					k++
+					n++
+					key := fmt.Sprintf("%s Set#%d index bounded", shortFn(m), k)
+					if r.bad != "" {
+						c.R.bad(rule, key, c.P.InstrPos(in), shortFn(m), r.bad)
+					} else {
+						c.R.ok(rule, key, c.P.InstrPos(in), shortFn(m), fmt.Sprintf("index is NextClear's result or the conversion of an address shown inside the pool (%d abstract states)", r.n))
+					}
+				}
+			}
+		}
+	}
+	c.R.Floor(rule, 2)
+}
